@@ -250,9 +250,9 @@ def model_obj(m, pre_tau, eps):
     return me
 
 
-def run_jump(repo, m, finalT, exact, pre_tau, eps, safety, runs=2):
+def run_jump(repo, m, finalT, exact, pre_tau, eps, safety, runs=2, salt=""):
     """interpret SimulateOde._jump `runs` times in a row on one model object (one random stream)"""
-    script = Script()
+    script = Script(salt)
     w = World(repo, script, safety)
     script.registry = w.gen.registry
     cls = M.sim_class(repo)
@@ -334,29 +334,34 @@ SCENARIOS = [
 SAFETY = {"id": lambda tau: tau, "half": lambda tau: tau / 2.0}
 
 
-def check_walks(repo, res, rule="R-WALK", only_exact=None, models=None):
-    """the recorded path of `_jump` equals the walk the property defines, scenario by scenario"""
+def check_walks(repo, res, rule="R-WALK", only_exact=None, models=None, tier="quick"):
+    """the recorded path of `_jump` equals the walk the property defines, scenario by scenario (thorough tier: every scenario under
+    five scripted random streams)"""
     ms = {m.name: m for m in tiny_models()}
     n = 0
     stats = {}
     from ..core import absint as _ai0
     _ai0.INLINED.clear()
-    for mname, finalT, exact, pre_tau, eps, sname in SCENARIOS:
+    scen = [(a, b, c, d, e, f_, "") for a, b, c, d, e, f_ in SCENARIOS]
+    if tier == "thorough":
+        scen += [(a, b, c, d, e, f_, salt) for a, b, c, d, e, f_ in SCENARIOS for salt in ("stream-1/", "stream-2/", "stream-3/", "stream-4/")]
+    for mname, finalT, exact, pre_tau, eps, sname, salt in scen:
         if only_exact is not None and exact != only_exact:
             continue
         if models is not None and mname not in models:
             continue
         m = ms[mname]
-        tag = "walk(%s,%s,horizon=%g)" % (mname, "exact" if exact else ("tau=%s%s,eps=%g" % ("adaptive" if pre_tau is None else pre_tau, ",safety halves tau" if sname == "half" else "", eps)), finalT)
+        tag = "walk(%s,%s,horizon=%g%s)" % (mname, "exact" if exact else ("tau=%s%s,eps=%g" % ("adaptive" if pre_tau is None else pre_tau, ",safety halves tau" if sname == "half" else "", eps)), finalT,
+                                           "" if not salt else "," + salt.rstrip("/"))
         cls = M.sim_class(repo)
         fn = repo.resolve_method(cls, "_jump")
         try:
-            fn, outs, me, script = run_jump(repo, m, finalT, exact, pre_tau, eps, SAFETY[sname])
+            fn, outs, me, script = run_jump(repo, m, finalT, exact, pre_tau, eps, SAFETY[sname], salt=salt)
         except Undecided as e:
             res.undecided(rule, fn, tag, "outside the modelled subset: %s" % e)
             continue
         n += 1
-        ref_script = Script()
+        ref_script = Script(salt)
         d = None
         nrec = 0
         for k, (kind, out) in enumerate(outs):
